@@ -170,8 +170,8 @@ pub fn inputs_of_base(plan: &Plan, b: u64, corpus: &[(String, Vec<u8>)]) -> Vec<
                 if hostile::MODEL_OPS[op] == "tileset_strip_height_u32" && (!thorough || r > 0 || b != 3 || plan.mode != Mode::Walk) {
                     continue; // 4 GiB of pixel data: once per thorough run, where accessors are walked
                 }
-                if hostile::MODEL_OPS[op] == "tilemap_extent_i32" && (r > 0 || b % 32 != 3 || plan.mode == Mode::Mem || plan.mode == Mode::Load) {
-                    continue; // ~2 x 10^9 loop iterations per rendering: one base in thirty-two, only where images are rendered
+                if hostile::MODEL_OPS[op] == "tilemap_extent_i32" && (r > 0 || b % 33 != 3 || plan.mode == Mode::Mem || plan.mode == Mode::Load) {
+                    continue; // ~2 x 10^9 loop iterations per rendering: one base in 33 (so that they land on different worker stripes), only where images are rendered
                 }
                 if hostile::MODEL_OPS[op] == "sparse_cel_table" {
                     // expensive, and only meaningful for the memory monitor: table sizes 750..7500 (quick) / up to 8000 (thorough)
